@@ -50,7 +50,7 @@ Definition raw_box (bbox : qrect) (no_filters : bool) : irect :=
           iw := Z.max 1 (f32_ceil (rw bbox)); ih := Z.max 1 (f32_ceil (rh bbox)) |}.
 
 (* nothing saturates: every coordinate of the padded box is an i32 with room to spare *)
-Definition RANGE : Z := 1073741824.   (* 2^30 *)
+Definition RANGE : Z := 536870912.   (* 2^29 *)
 Definition small_bbox (b : qrect) : Prop :=
   - RANGE <= f32_floor (rx b) <= RANGE /\ - RANGE <= f32_floor (ry b) <= RANGE /\
   0 <= f32_ceil (rw b) <= RANGE /\ 0 <= f32_ceil (rh b) <= RANGE.
